@@ -81,7 +81,9 @@ def nlri_expected(n: dict, withdraw: bool = False) -> tuple:
     )
 
 
-def nlri_observed(fam: tuple, item: dict, withdraw: bool = False) -> tuple:
+def nlri_observed(fam: tuple, item, withdraw: bool = False) -> tuple:
+    if isinstance(item, str):
+        item = {'nlri': item}  # exabgp.api.compact: an NLRI with no qualifier is its prefix alone
     labels = tuple(x[0] for x in item.get('label', []))
     if withdraw and fam[1] in (4, 128):
         labels = ('*',)
